@@ -438,3 +438,13 @@ package bt
 //@   opt bytes-le-defs 1
 //@   ensures[C01.varint_read_len] (=> (= err nil) (and (or (= r0 1) (= r0 3) (= r0 5) (= r0 9)) (>= r0 (spec.vlen (deref v))) (=> (= r0 1) (< (deref v) 253)) (=> (= r0 3) (< (deref v) 65536)) (=> (= r0 5) (< (deref v) 4294967296)) (<= 0 (deref v)) (< (deref v) 18446744073709551616)))
 //@   ensures[C01.varint_read] (=> (= err nil) (= (old (rem r)) (bcat (spec.vi_n (deref v) r0) (rem r))))
+//@ func bt.readBytesN
+//@   bytes token
+//@   ensures[C01.readn] (=> (= err nil) (and (= (len r0) n) (= r1 n) (= (old (rem r)) (bcat (bytes r0) (rem r)))))
+//@   loop 0 invariant (= (old (rem r)) (bcat (bytes buf) (rem r)))
+//@ func bt.(*Output).ReadFrom
+//@   bytes token
+//@   ensures[C01.output_read] (=> (= err nil) (and (not (nil? (. o LockingScript))) (spec.vi_ok (len (. o LockingScript)) (- r0 (+ 8 (len (. o LockingScript))))) (= (old (rem r)) (bcat (spec.out_wire o (- r0 (+ 8 (len (. o LockingScript))))) (rem r)))))
+//@ func bt.(*Input).readFrom
+//@   bytes token
+//@   ensures[C01.input_read] (=> (and (= err nil) (not extended)) (and (not (nil? (. i UnlockingScript))) (= (len (. i previousTxID)) 32) (spec.vi_ok (len (. i UnlockingScript)) (- r0 (+ 40 (len (. i UnlockingScript))))) (= (old (rem r)) (bcat (spec.in_wire i (- r0 (+ 40 (len (. i UnlockingScript))))) (rem r)))))
